@@ -125,6 +125,7 @@ def c04(rec, tier):
     f4_exc.run(rec, F)
     f4_exc.run_native_env(rec, F, S)
     f4_vm.synthetic_call_protocol(rec, F)
+    f4_iter.run_error_not_dropped(rec, F)
     T = f1_isa.run_tables(rec, F)
     f1_isa.run_effect(rec, F, T, only=("PushHandler", "PopHandler", "CheckHandler", "FinishUnwind", "ContinueUnwind", "GetError", "Raise"))
 
@@ -203,6 +204,7 @@ def SY(rec):
 def c10(rec, tier):
     F = D(rec)
     f10_parity.run_forwarding(rec, F)
+    f10_parity.run_forwarded_writes(rec, F)
     f10_parity.run_stale_after_scan(rec, F)
     # any value works as a map key: equal values hash equal
     f10_parity.run_number_equality(rec, F, "unboxed")
@@ -241,6 +243,10 @@ def c11(rec, tier):
     f4_iter.run_hints(rec, F)
     f4_iter.run_utf8(rec, F)
     f4_gc.growth_progress(rec, F)
+    f4_iter.run_error_not_dropped(rec, F)
+    # maps key by Value == and hash; lists relocate
+    f10_parity.run_number_equality(rec, F, "unboxed")
+    f10_parity.run_forwarded_writes(rec, F)
 
 
 def c16(rec, tier):
